@@ -802,10 +802,12 @@ func callRecover(f func() string) (out string, pan string) {
 	defer func() {
 		if r := recover(); r != nil {
 			if _, ok := r.(hangSentinel); ok {
+				unwound = true
 				pan = "hang"
 				return
 			}
 			if _, ok := r.(deadlockSentinel); ok {
+				unwound = true
 				pan = "deadlock"
 				return
 			}
